@@ -46,8 +46,13 @@ Inductive stmt : Set :=
 | SForList (i : nat) (k : vkind) (x : nat) (len : nat) (b : stmt)   (* for i in <array variable (k,x)> *)
 | SReturn (e : expr).
 
-Record fn : Set := mk_fn { fmut : mut; fvis : vis; fbody : stmt }.
-Record prog : Set := mk_prog { funs : list fn; cst : nat -> Z }.
+(* modules: a function lives in the main contract or in the imported library module `lib1`; the main contract
+   declares nothing, `uses: lib1` or `initializes: lib1`.  Storage variables with index >= 5 belong to lib1. *)
+Inductive ownership : Set := NoOwn | Uses | Initializes.
+Record fn : Set := mk_fn { fmut : mut; fvis : vis; flib : bool; fbody : stmt }.
+Record prog : Set := mk_prog { funs : list fn; cst : nat -> Z; owns : ownership }.
+Definition lib_var (k : vkind) (x : nat) : bool :=
+  match k with VStorage => Nat.leb 5 x && negb (Nat.eqb x 8) && negb (Nat.eqb x 9) | _ => false end.
 
 (* ------------------------------------------------------------------ the checker *)
 Definition call_ok (callee caller : mut) : bool := mle callee caller || mle NonPay caller.
@@ -164,8 +169,79 @@ Fixpoint calls_ok (n : nat) (p : prog) (f : nat) : bool :=
 Definition acyclic (p : prog) : bool :=
   forallb (calls_ok (length (funs p)) p) (seq 0 (length (funs p))).
 
-Definition fn_ok (p : prog) (g : fn) : bool := chk_stmt p g [] (fbody g).
-Definition check (p : prog) : bool := forallb (fn_ok p) (funs p) && acyclic p.
+(* iterator mutation through internal calls: state variables a function may write, directly ... *)
+Fixpoint writes_s (s : stmt) : list (vkind * nat) :=
+  match s with
+  | SSeq s t | SIf _ s t => writes_s s ++ writes_s t
+  | SAssign k x _ | SAug k x _ => if is_state k then [(k, x)] else []
+  | SFor _ _ b | SForList _ _ _ _ b => writes_s b
+  | _ => []
+  end.
+(* ... or through at most n nested internal calls (func_t.get_variable_writes of the callee) *)
+Fixpoint fwrites (n : nat) (p : prog) (f : nat) : list (vkind * nat) :=
+  match n with
+  | O => []
+  | S n' => match nth_error (funs p) f with
+            | Some g => writes_s (fbody g) ++ flat_map (fwrites n' p) (callees_s (fbody g))
+            | None => []
+            end
+  end.
+Definition calls_keep (p : prog) (L : list (vkind * nat)) (fs : list nat) : bool :=
+  forallb (fun f => negb (existsb (fun q => in_iter L (fst q) (snd q)) (fwrites (length (funs p)) p f))) fs.
+(* no statement inside `for x in <array>` calls a function that writes <array> *)
+Fixpoint iter_calls_ok (p : prog) (L : list (vkind * nat)) (s : stmt) : bool :=
+  match s with
+  | SSkip => true
+  | SSeq s t => iter_calls_ok p L s && iter_calls_ok p L t
+  | SAssign _ _ e | SAug _ _ e | SExpr e | SLog e | SReturn e => calls_keep p L (callees_e e)
+  | SIf c s t => calls_keep p L (callees_e c) && iter_calls_ok p L s && iter_calls_ok p L t
+  | SFor _ r b => calls_keep p L (callees_r r) && iter_calls_ok p L b
+  | SForList _ k x _ b => iter_calls_ok p ((k, x) :: L) b
+  end.
+
+(* module state: does a function touch lib1's state, directly or through at most n nested calls (`uses_state`) *)
+Fixpoint touches_e (e : expr) : bool :=
+  match e with
+  | EVar k x => lib_var k x
+  | EBin a b => touches_e a || touches_e b
+  | ECall _ a | EExtCall _ _ a | EBuiltin _ a => touches_e a
+  | _ => false
+  end.
+Definition touches_r (r : rng) : bool := match r with RLit _ => false | RBound e _ | RExpr e => touches_e e end.
+Fixpoint touches_s (s : stmt) : bool :=
+  match s with
+  | SSkip => false
+  | SSeq s t => touches_s s || touches_s t
+  | SAssign k x e | SAug k x e => lib_var k x || touches_e e
+  | SExpr e | SLog e | SReturn e => touches_e e
+  | SIf c s t => touches_e c || touches_s s || touches_s t
+  | SFor _ r b => touches_r r || touches_s b
+  | SForList _ k x _ b => lib_var k x || touches_s b
+  end.
+Fixpoint fuses (n : nat) (p : prog) (f : nat) : bool :=
+  match n with
+  | O => false
+  | S n' => match nth_error (funs p) f with
+            | Some g => touches_s (fbody g) || existsb (fuses n' p) (callees_s (fbody g))
+            | None => false
+            end
+  end.
+(* check_module_uses: a main-contract function may touch lib1 state, or call a lib1 function that uses lib1 state,
+   only if the contract `uses` / `initializes` lib1; library code never calls back into the main contract *)
+Definition mod_fn_ok (p : prog) (g : fn) : bool :=
+  if flib g then
+    forallb (fun f => match nth_error (funs p) f with Some h => flib h | None => false end) (callees_s (fbody g))
+  else
+    match owns p with
+    | NoOwn => negb (touches_s (fbody g)) && negb (existsb (fuses (length (funs p)) p) (callees_s (fbody g)))
+    | _ => true
+    end.
+(* validate_compilation_target: a module that is `uses`-d by the compilation target must be initialized *)
+Definition own_ok (p : prog) : bool := match owns p with Uses => false | _ => true end.
+
+Definition fn_ok (p : prog) (g : fn) : bool :=
+  chk_stmt p g [] (fbody g) && iter_calls_ok p [] (fbody g) && mod_fn_ok p g.
+Definition check (p : prog) : bool := forallb (fn_ok p) (funs p) && acyclic p && own_ok p.
 
 (* ------------------------------------------------------------------ semantics *)
 Inductive eff : Set :=
